@@ -397,8 +397,14 @@ def _run_unit(spec: Spec, repo: Repo | None = None, timeout_s=20.0, want_smt2=Fa
         res.canaries_refuted += 1 if sat == "sat" else 0
         npath += 1
         axioms = list(V.AXIOMS)
+        havoc = sorted(cx.ghost.get("havoc_attrs", ()))
         for ob in cx.obls:
             v = discharge(ob, axioms, timeout_s=timeout_s, want_smt2=want_smt2)
+            if havoc and v.status == "refuted":
+                # the path read attributes the contract does not describe (arbitrary values were used): a refutation may
+                # rest on a value the class never produces -> undecided, not a violation
+                v.status = "undecided"
+                v.backend = f"{v.backend}: refuted only with arbitrary values of {', '.join(havoc)} (state outside the contract)"
             if want_smt2 == "samples" and v.status == "discharged" and v.backend != "simplifier" and nsmt < 2:
                 nsmt += 1
                 v = discharge(ob, axioms, timeout_s=timeout_s, want_smt2=True)
